@@ -55,8 +55,11 @@ def strip_bono(tags):
 
 
 def parse_csv(text):
-    rows = [r.split(",") for r in text.split("\n") if r]
-    return rows
+    import csv
+    import io
+
+    # standard CSV: a field that contains a comma or a quote is quoted
+    return [r for r in csv.reader(io.StringIO(text)) if r]
 
 
 def outputs_by_chrom(files, by_chrom, chroms):
